@@ -2,6 +2,7 @@ package vuego
 
 import (
 	"fmt"
+	"slices"
 	"strings"
 
 	"golang.org/x/net/html"
@@ -15,6 +16,8 @@ func (v *Vue) evalAttributes(ctx VueContext, n *html.Node) (map[string]any, erro
 	}
 
 	results := map[string]any{}
+	// the truthy ones among them: what reaches the output
+	emitted := map[string]any{}
 	// names of the bound attributes in the order they appear on the element
 	var boundOrder []string
 
@@ -54,12 +57,16 @@ func (v *Vue) evalAttributes(ctx VueContext, n *html.Node) (map[string]any, erro
 				return nil, fmt.Errorf("error evaluating attr %s: %w", boundName, err)
 			}
 			if !helpers.IsTruthy(boundValue) {
+				// A falsy value keeps the attribute out of the output, but it is still
+				// the value of the prop: :count="0" passes 0, it does not leave count unset
+				results[boundName] = boundValue
 				continue
 			}
-			if _, seen := results[boundName]; !seen {
+			if !slices.Contains(boundOrder, boundName) {
 				boundOrder = append(boundOrder, boundName)
 			}
 			results[boundName] = boundValue
+			emitted[boundName] = boundValue
 		default:
 			var err error
 			if containsInterpolation(val) {
@@ -78,7 +85,7 @@ func (v *Vue) evalAttributes(ctx VueContext, n *html.Node) (map[string]any, erro
 
 	// Second pass: merge bound attributes with static ones
 	for _, attrName := range boundOrder {
-		boundValue := results[attrName]
+		boundValue := emitted[attrName]
 		// Check if there's a static attribute with the same name
 		staticIdx := -1
 		for i, a := range newAttrs {
